@@ -15,7 +15,7 @@ fn bases() -> &'static Vec<(Enc, Vec<u8>)> {
             v.push((enc, elfw::enc_bytes(enc, |w| h.write(w))));
         }
         // richer files: search fixed seeds until each encoding has one that opens with sections
-        let o = RichOpts { override_chance: 0, corrupt_chance: 0, max_gap: 8, tables_early: false, allow_compressed: false, max_names: 5 };
+        let o = RichOpts { override_chance: 0, corrupt_chance: 0, max_gap: 8, tables_early: false, allow_compressed: false, max_names: 5, shrink_chance: 0 };
         for enc in ALL_ENC {
             let mut seed = 1u64;
             loop {
@@ -178,7 +178,7 @@ fn digest_vec<E: EndianParse>(f: &elf::ElfBytes<'_, E>, plan: &[queries::Q]) -> 
 /// AnyEndian vs the matching fixed spec over generated (and mildly corrupted) files.
 fn oracle_equiv(case: &[u8], obs: &mut Obs) -> Result<(), String> {
     let mut c = Choice::new(case);
-    let o = RichOpts { override_chance: 60, corrupt_chance: 40, max_gap: 16, tables_early: false, allow_compressed: true, max_names: 6 };
+    let o = RichOpts { override_chance: 60, corrupt_chance: 40, max_gap: 16, tables_early: false, allow_compressed: true, max_names: 6, shrink_chance: 30 };
     let r = filegen::rich_file(&mut c, &o);
     let data = &r.built.bytes;
     let le_file = data.get(5) == Some(&1);
